@@ -675,7 +675,7 @@ class C08(fw.Property):
     level_note = ("Token / strictly rising Observe numbers on the wire and 'latest state sent' (idle task + nothing of the registration in the backlog => "
                   "the last datagram on the wire carries the current resource version) are proved over all histories. For explicit responses the theorem "
                   "says the last produced one is the last on the wire; that it is the last one passed is the loop-level lemma on the lossy future. "
-                  "The fairness state is shown reachable (C08_latest_state_reached / _eventually_sent: progress events only). PARTIAL: Time-out is stated for the firing of the last retransmission timer, not derived from EAdvance; 'ends on unsuccessful / last notification' is stated for the task's code, not for the trigger event. Not modelled: task garbage collection, "
+                  "The fairness state is shown reachable (C08_latest_state_reached / _eventually_sent: progress events only). PARTIAL: Time-out is stated for the firing of the last retransmission timer, not derived from EAdvance; 'ends on unsuccessful / last notification' is proved for the trigger event on idle tasks (C08_ends_on_last_or_unsuccessful_trigger) and for the task's code when a render is in progress; advance never runs out of fuel (C08_advance_fires_all_due_timers). Not modelled: task garbage collection, "
                   "No-Response, block-wise, multicast; observers are triggered in a script-chosen order. Trusted: the model's correspondence (sampled), virtual loop, harness codec.")
 
     # ------------------------------------------------------------------ generators (every choice from rng)
